@@ -47,7 +47,8 @@ CLAIMED = {
         technique="Lean 4 proof (verified checker: fsck_sound) + checker run on images of the real server's disk"),
     "C05": dict(category="proof",
         text="PARTIAL (for all histories: sampled). Lean theorems over accepted images: marked = reachable for blocks and inodes at quiescence, nothing half-freed, delete-all leaves only the root's blocks, "
-             "no marked block without an owner in any image (crash images included), allocators = bitmaps. Ties: build-then-delete rounds with free-count equality, crash images during background freeing, reuse of half-freed numbers.",
+             "no marked block without an owner in any image (crash images included), allocators = bitmaps; truncation on the pointer-tree model M7 frees exactly what it unmaps for every history of inode operations; "
+             "hand-over model M15: when no shrinker thread is left no truncation is pending, for every order of requests, thread rounds, helpers and exits (StartShrinker starts a thread on every path: regenerated). Ties: build-then-delete rounds with free-count equality, crash images during background freeing, reuse of half-freed numbers.",
         design_ref="DESIGN.md 5/C05", note="trusted: Lean kernel, harness image walk and free-count reads; histories, crash points and schedules sampled",
         technique="Lean 4 proof (verified checker + reclaim theorems) + build-then-delete and crash-during-free oracles on the real server"),
     "C06": dict(category="proof",
@@ -71,8 +72,10 @@ CLAIMED = {
         technique="Lean 4 proof + correspondence + dump comparison around failures"),
     "C10": dict(category="proof",
         text="Lean theorems: the on-disk codecs (inode, directory entry, handle) are bijective on well-formed values; the inode-cache protocol keeps the cache equal to the logical "
-             "disk at every quiescent point for every sequence of loads, in-place modifications, evictions, commits and aborts, so a rebuilt server reads the same. Ties: codec "
-             "correspondence; coherence oracle at quiescent points (cached inodes, name caches, allocators vs logical disk); API dumps of running vs cleanly restarted vs recovered-from-image server.",
+             "disk at every quiescent point for every sequence of loads, in-place modifications, evictions, commits and aborts, so a rebuilt server reads the same; the name cache of a directory (M8e: dcache map, Lastoff hint, AddNameDir's slot choice) holds "
+             "exactly the live slots in every state reachable by lookups, insertions, removals, evictions and aborted transactions, and the directory with its cache refines a plain "
+             "map name -> inode number (name_cache_is_the_directory, directory_refines_a_plain_map). Ties: codec "
+             "correspondence; dcache correspondence (reply, Lastoff, whole cache map and slots after every step of real transactions on a real directory inode); coherence oracle at quiescent points (cached inodes, name caches, allocators vs logical disk); API dumps of running vs cleanly restarted vs recovered-from-image server.",
         design_ref="DESIGN.md 5/C10", note="trusted: Lean kernel, hand-written codec and cache-protocol models, harness (reads private fields by reflection)",
         technique="Lean 4 proof (codec bijection, cache-protocol invariant) + correspondence + restart/recovery dump comparison"),
     "C11": dict(category="proof",
@@ -112,7 +115,7 @@ CLAIMED = {
     "C14": dict(category="proof",
         text="PARTIAL by nature. Lean theorems: lockset discipline implies a release->acquire edge between conflicting accesses; for the control skeleton of every function of nfs/, dir/, "
              "shrinker/ (REGENERATED from the source on every run, 860 statements classified) no path uses an inode variable after the commit/abort that released its lock — path-sensitive "
-             "abstract execution decided by the kernel over the regenerated table; struct mutexes guard their fields on every path; fields synchronised by sync/atomic are touched atomically or in function-private copies only (table by go/types over the whole module). Recorded lock events of concurrent runs validated; thorough tier: Go race detector as search.",
+             "abstract execution decided by the kernel over the regenerated table; struct mutexes guard their fields on every path; fields synchronised by sync/atomic are touched atomically or in function-private copies only (table by go/types over the whole module); the server-wide structs every request reaches without a lock (nfs.Nfs, fstxn.FsState, super.FsSuper, simple.Nfs, kvs.KVS) are written by their constructors only (table of every field assignment of the module, by go/types). Recorded lock events of concurrent runs validated; thorough tier: Go race detector as search.",
         design_ref="DESIGN.md 5/C14", note="trusted: Lean kernel, the go/ast skeleton extractor, fstxn hooks; outside: Go memory model, go-journal internals, non-inode shared state (own mutexes/atomics)",
         technique="Lean 4 proof over regenerated control skeletons + lock-trace validation (+ race detector as search)"),
     "C15": dict(
